@@ -78,7 +78,7 @@ func checkC15(w *World, r *Report) {
 	r.Explanation += " Round 10: (R15.11) not-found is not memoised; (R15.12) timestamps of cached templates are not rewritten; (R15.13) only the loading path gives a template a loader."
 	r.Explanation += " Round 11: (R15.11) also for Exists; (R15.15) loader walks do not classify errors."
 	r.Explanation += " Round 12: (R15.4) every reader of the template table stands under the cache flag; (R15.16) loaders are asked in registration order."
-	r.Explanation += " Round 14: (R15.17) Load, Exists and GetModifiedTime of one loader shape the name into a path by the same operations."
+	r.Explanation += " Round 14: (R15.17) Load, Exists and GetModifiedTime of one loader shape the name into a path by the same operations; (R15.18) loaders look names up with the two-result form."
 	r.RuleText = "obligation = one return / store / loop / comparison in the cache and loader code; non-trivial = all"
 	r.Trusted = []string{"fmt.Errorf %w semantics", "range over a slice visits elements in index order"}
 
